@@ -84,8 +84,9 @@ def setup(ctx):
             ref_aim = np.asarray(aim(pts.copy(), np.array([g.center for g in atgrids]), np.asarray(a["atnums"]), idx.copy()))
         else:
             ref_aim = np.asarray(aim)
+        ref_aim = ref_aim.astype(float)  # integer / boolean / float32 partitions are admissible: compare by value
         wscale = float(np.abs(atw).max()) * max(1.0, float(np.abs(ref_aim).max())) + 1e-300
-        ctx.check("aim-weights-stored", subj, float(np.abs(np.asarray(self.aim_weights) - ref_aim).max()), 1e-14)
+        ctx.check("aim-weights-stored", subj, float(np.abs(np.asarray(self.aim_weights).astype(float) - ref_aim).max()), 1e-14)
         ctx.check("weights-are-product", subj, float(np.abs(self.weights - atw * ref_aim).max()) / wscale, 1e-15)
         # integral identity with an arbitrary smooth function (deterministic, no RNG needed)
         f = np.cos(0.7 * pts[:, 0] - 0.3 * pts[:, 1]) * np.exp(-0.05 * np.sum(pts**2, axis=1) / scale) + 0.25 * pts[:, 2] / scale
@@ -172,11 +173,19 @@ def run_case(ctx, family, params):
                 degs = [int(v) for v in rng.integers(2, 18, rg.size)]
             atgrids.append(AtomGrid(rg, degrees=degs, center=coords[i], rotate=int(rng.integers(0, 100)), method=str(rng.choice(methods))))
         size = sum(g.size for g in atgrids)
-        mode = int(rng.integers(0, 3))
+        mode = int(rng.integers(0, 5))
         if mode == 0:
             aim = BeckeWeights(order=int(rng.integers(1, 5)))
         elif mode == 1:
             aim = rng.uniform(0, 1, size)
+        elif mode == 3:  # 0/1 partition (e.g. Voronoi cells) as an integer- or boolean-dtype array, or float32 weights
+            aim = [rng.integers(0, 2, size), rng.integers(0, 2, size).astype(bool), rng.integers(0, 3, size).astype(np.int32), rng.uniform(0, 1, size).astype(np.float32)][int(rng.integers(0, 4))]
+        elif mode == 4:  # callable returning an integer-dtype partition
+            wi = rng.integers(0, 2, size)
+
+            def aim(points, atcoords, atnums_, indices, _w=wi):
+                return _w.copy()
+
         else:
             w = rng.uniform(0.1, 1, size)
 
@@ -184,14 +193,15 @@ def run_case(ctx, family, params):
                 return _w * (1.0 + 0.0 * points[:, 0])
 
         ctx.case_note("natoms", len(atnums))
-        ctx.case_note("aim", ["BeckeWeights", "array", "function"][mode])
+        ctx.case_note("aim", ["BeckeWeights", "array", "function", "int/bool/float32 array", "function returning ints"][mode])
+        ctx.count("aim-kind:" + ["BeckeWeights", "array", "function", "int/bool/float32 array", "function returning ints"][mode])
         with ctx.guard("store-independence", "MolGrid"):
             m0 = MolGrid(atnums, atgrids, aim, store=False)
             m1 = MolGrid(atnums, atgrids, aim, store=True)
             _same_grid(ctx, "store-independence", "mol", m0, m1, 0.0)
             f = np.exp(-0.3 * np.sum((m0.points - coords[0]) ** 2, axis=1))
             ctx.check("store-independence", "integrate", abs(float(m0.integrate(f)) - float(m1.integrate(f))), 0.0)
-            ctx.check("store-independence", "aim_weights", float(np.abs(m0.aim_weights - m1.aim_weights).max()), 0.0)
+            ctx.check("store-independence", "aim_weights", float(np.abs(np.asarray(m0.aim_weights, dtype=float) - np.asarray(m1.aim_weights, dtype=float)).max()), 0.0)
             for i in range(len(atnums)):
                 g0, g1 = m0.get_atomic_grid(i), m1.get_atomic_grid(i)
                 ctx.hit("MolGrid.get_atomic_grid")
